@@ -552,6 +552,8 @@ class HedSchema(HedSchemaBase):
                 next_index = len(working_tag)
             parent_name = working_tag[:next_index]
             parent_entry = self._get_tag_entry(parent_name)
+            if parent_entry and parent_name.endswith("/#") and next_index != len(working_tag):
+                parent_entry = None  # a placeholder node has nothing below it: '#' here is text of the value
 
             if not parent_entry:
                 # We haven't found any tag at all yet
